@@ -231,7 +231,7 @@ impl Check for C20 {
         };
         o.max_log_files = if pick(cx, 0.4) { Some(cx.rng.gen_range(0..100)) } else { None };
         o.max_archived_log_files = if pick(cx, 0.4) { Some(cx.rng.gen_range(0..100)) } else { None };
-        o.owner = if pick(cx, 0.4) { Some(["Discord_User", "alice", "BOB42", "mixedCase.name"].choose(&mut cx.rng).expect("nonempty").to_string()) } else { None };
+        o.owner = if pick(cx, 0.4) { Some(["Discord_User", "alice", "BOB42", "mixedCase.name", "", "a", "with space"].choose(&mut cx.rng).expect("nonempty").to_string()) } else { None };
         o.home_network = pick(cx, 0.4);
         o.upnp = pick(cx, 0.4);
         if o.home_network && o.upnp {
@@ -277,8 +277,19 @@ impl Check for C20 {
             };
             cx.count(if started.is_ok() { "started-before-upgrade" } else { "start-before-upgrade-failed" });
         }
+        // ---- in a third of the cases another service is added afterwards without any environment option (the
+        //      registry keeps one environment for all services; a later add that does not mention it must not clear it)
+        if cx.rng.gen_bool(0.33) {
+            let mut o2 = add_options(&root, 1);
+            o2.env_variables = None;
+            let _ = rt.block_on(add_node(o2, &mut registry, &os, VerbosityLevel::Minimal));
+            cx.count("second-add-before-upgrade");
+        }
+        // the upgrade command takes the environment from the registry unless the user passes one
+        let _ = &env;
+        let env_for_upgrade = registry.environment_variables.clone();
         // ---- upgrade definition from the recorded data
-        let opts = UpgradeOptions { auto_restart, env_variables: env.clone(), force: false, start_service: false, target_bin_path: root.join("antnode-src"), target_version: semver::Version::new(9, 9, 9) };
+        let opts = UpgradeOptions { auto_restart, env_variables: env_for_upgrade, force: false, start_service: false, target_bin_path: root.join("antnode-src"), target_version: semver::Version::new(9, 9, 9) };
         let upgrade = {
             let svc = NodeService::new(&mut registry.nodes[0], Box::new(NoRpc));
             svc.build_upgrade_install_context(opts)
